@@ -121,7 +121,12 @@ def main(argv):
     harness_errors = []
     for i, r in sorted(results.items()):
         for kk, vv in r.get("observed", {}).items():
-            observed[kk] = observed.get(kk, 0) + vv
+            if kk.startswith("max:"):
+                observed[kk] = max(observed.get(kk, vv), vv)
+            elif kk.startswith("min:"):
+                observed[kk] = min(observed.get(kk, vv), vv)
+            else:
+                observed[kk] = observed.get(kk, 0) + vv
         sig = r.get("sig") or _case_hash(cases[i])
         sigs.add(sig)
         if r.get("nontrivial"):
